@@ -146,7 +146,15 @@ def make_scenario(seed, idx, tool):
                 i_short -= 1
             utts[i_short]["n"] = 3
             utts[i_short + 1]["n"] = max(utts[i_short + 1]["n"], int(0.05 * rate))
-    scn = {"tool": tool, "idx": idx, "kind": kind, "rate": rate, "computer": comp, "pre": pre, "post": post, "utts": utts, "channel": channel,
+    steady = bool(tool == "kaldi" and comp is not None and kind == "pipeline" and idx % 5 == 3)
+    if steady:
+        # sustained tones, standardised per utterance (a post-processor without a statistics file): coefficients that barely move are
+        # divided by their own small deviation, so the post-processors must get the coefficients as the computer returned them
+        pre = [p_ for p_ in pre if p_["name"] != "vfclip"]
+        post = [{"name": "standardize"}]
+        for u_ in utts:
+            u_["n"] = max(u_["n"], int(0.08 * rate))  # (an utterance without frames has no deviation of its own to be standardised with)
+    scn = {"tool": tool, "idx": idx, "kind": kind, "rate": rate, "computer": comp, "pre": pre, "post": post, "utts": utts, "channel": channel, "steady": steady,
            "syntax": [str(s) for s in rng.permutation(["inline", "json", "yaml"])[:2]], "seed_opt": 0 if idx % 3 == 0 else int(rng.integers(0, 1000))}
     if tool == "kaldi":
         scn["min_duration"] = 0.0
@@ -212,6 +220,10 @@ def signals_for(scn, seed):
         amp = 80 if scn["kind"] == "order" else 8000
         n = 6000 if scn["kind"] == "order" and "excluded" not in u and u["n"] >= 40 else u["n"]
         x = np.clip(np.round(np.cumsum(rng.standard_normal((u["channels"], n)), axis=1) * amp * 0.05 + rng.standard_normal((u["channels"], n)) * amp), -32000, 32000)
+        if scn.get("steady") and n >= 200:
+            t = np.arange(n) / float(u["rate"])
+            f0 = float(rng.choice([250.0, 500.0, 1000.0]))
+            x = np.round(np.stack([12000.0 * np.sin(2 * np.pi * f0 * (1 + 0.1 * c) * t) * (1.0 + 0.001 * np.arange(n) / n) for c in range(u["channels"])]))
         sig[u["id"]] = x.astype(np.int16)
     return sig
 
@@ -390,7 +402,7 @@ def expected_features(scn, x1d, stats_path):
             elif p["name"] == "stack":
                 f = POST.Stack(p["num_vectors"]).apply(f)
             else:
-                f = POST.Standardize(stats_path).apply(f)
+                f = (POST.Standardize(stats_path) if p.get("rfilename") else POST.Standardize()).apply(f)
     return f.astype(np.float32)
 
 
